@@ -5,7 +5,7 @@ import json, os, re, subprocess, sys
 pid = sys.argv[1]
 out = subprocess.run(['/venv/bin/python', '/verif/run.py', pid, '--tier', 'quick'], capture_output=True, text=True,
                      env=dict(os.environ, VERIF_ONLY_REGRESSIONS='1')).stdout
-stale = re.findall(r'^note: (\S+\.json): expected known bucket (\S+) no longer reproduces', out, re.M)
+stale = [x for x in re.findall(r'^note: (\S+\.json): expected known bucket (\S+) no longer reproduces', out, re.M) if not x[1].endswith('*')]
 kf = json.load(open('/verif/known_findings.json'))
 for fname, bucket in stale:
     p = f'/verif/regressions/{pid}/{fname}'
